@@ -4,7 +4,7 @@ import re
 from ..core import AnchorError, norm_path, op_local, op_place
 from ..flow import branch_on_call, facts_at, must_pass
 
-CRATES = ["apollo_compiler"]
+CRATES = ["apollo_parser", "apollo_compiler"]
 LEVEL = "other"
 EXPLANATION = """
 C21.CUT: every recursive cycle of apollo-compiler's call graph is classified.  (A) depth-counted:
@@ -379,6 +379,10 @@ def run(prog, rep):
     rule_limit(prog, rep)
     rule_sort(prog, rep)
     rule_search(prog, rep)
+    # serialization must not panic either: the quoted-string writer slices one byte per escaped
+    # character, so the set of characters it selects for escaping has to be ASCII (C09.ESCINV)
+    from .C09 import rule_escinv
+    rule_escinv(prog, rep)
     if rep.tier == "thorough":
         from . import inv_compiler
         inv_compiler.run(prog, rep)
